@@ -174,7 +174,7 @@ theorem C03_encodeUrl_scheme (e : Env) (s : Str) (u : Url) (hs : PyStr s) (hu : 
     (it is validated), `user=` / `password=` Python strings — produces a URL with `NetlocCanon` -/
 theorem C03_build_netlocCanon (e : Env) (a : BuildArgs) (u : Url) (henc : a.encoded = false)
     (hok : BuildNetOK e a) (hb : build e a = .ok u) : NetlocCanon e u := by
-  obtain ⟨_, h | ⟨user, pw, host, port, hsh, _⟩⟩ := build_shape e a u henc hok hb
+  obtain ⟨_, _, _, h | ⟨user, pw, host, port, hsh, _⟩⟩ := build_shape e a u henc hok hb
   · exact NetlocCanon.empty h.1 h.2
   · exact hsh.canon
 
@@ -277,7 +277,7 @@ theorem C03_constructor_noDefaultPort (e : Env) (s : Str) (u : Url) (pt : Parts)
 /-- `build(encoded=False)` never stores an explicit default port -/
 theorem C03_build_noDefaultPort (e : Env) (a : BuildArgs) (u : Url) (henc : a.encoded = false)
     (hok : BuildNetOK e a) (hb : build e a = .ok u) : NoDefaultPort e u := by
-  obtain ⟨hsc, h | ⟨user, pw, host, port, hsh, hnd⟩⟩ := build_shape e a u henc hok hb
+  obtain ⟨sc, _, hsc, h | ⟨user, pw, host, port, hsh, hnd⟩⟩ := build_shape e a u henc hok hb
   · have hN := net_empty e u h.1 h.2
     intro p hp
     unfold explicitPort at hp
@@ -289,24 +289,63 @@ theorem C03_build_noDefaultPort (e : Env) (a : BuildArgs) (u : Url) (henc : a.en
     rw [hsc]
     exact hnd p rfl
 
+/-- a string of scheme characters in ANY case (the empty scheme included) -/
+def SchemeChars (s : Str) : Prop := ∀ c ∈ s, mem c Gen.schemeChars = true
+
+instance (s : Str) : Decidable (SchemeChars s) := by unfold SchemeChars; infer_instance
+
+theorem schemeOK'_chars {s : Str} (h : SchemeOK' s) : SchemeChars s := by
+  rcases h with rfl | h
+  · intro c hc; cases hc
+  · exact fun c hc => (h.2 c hc).1
+
+theorem schemeChars_lower_tab : ∀ c ∈ Gen.schemeChars,
+    mem (lowerC c) Gen.schemeChars = true ∧ ¬ (65 ≤ lowerC c ∧ lowerC c ≤ 90) ∧ c < 128 := by decide
+
+/-- `build` lowers the scheme (fix e21485a): scheme characters in any case are stored as an RFC-valid lower-case
+    scheme -/
+theorem lowerAny_schemeChars (e : Env) {s : Str} (h : SchemeChars s) :
+    lowerAny e s = .ok (lower s) ∧ SchemeOK' (lower s) := by
+  have tab := fun c hc => schemeChars_lower_tab c (GenTabs.mem_iff.mp (h c hc))
+  constructor
+  · apply BuildFix.lowerAny_ascii
+    unfold isAscii
+    rw [List.all_eq_true]
+    intro c hc
+    simpa using (tab c hc).2.2
+  · cases s with
+    | nil => exact Or.inl rfl
+    | cons x r =>
+      right
+      refine ⟨by simp [lower], ?_⟩
+      intro c hc
+      unfold lower at hc
+      obtain ⟨d, hd, rfl⟩ := List.mem_map.1 hc
+      exact ⟨(tab d hd).1, (tab d hd).2.1⟩
+
 /-- "For every URL the library produces [with `build(encoded=False)`] from valid input …".  VALID INPUT:
     `BuildArgsPy a` (path / query / fragment are Python strings), `BuildNetOK e a` (authority as for the
-    constructor, or an ASCII `host=` with Python-string `user=` / `password=`), an RFC-valid `scheme=`.
-    Here `URL(str(u)) == u` holds unconditionally. -/
+    constructor, or an ASCII `host=` with Python-string `user=` / `password=`), a `scheme=` of scheme characters
+    in ANY CASE (STRONGER since fix e21485a: `build` stores the scheme lower-case, so the former hypothesis
+    "RFC-valid LOWER-CASE scheme", `SchemeOK' a.scheme`, is relaxed — it implies `SchemeChars a.scheme`,
+    `schemeOK'_chars`).  Here `URL(str(u)) == u` holds unconditionally. -/
 theorem C03_build_fixed_point (e : Env) (a : BuildArgs) (u : Url) (henc : a.encoded = false)
-    (hpy : BuildArgsPy a) (hok : BuildNetOK e a) (hsch : SchemeOK' a.scheme) (hb : build e a = .ok u)
+    (hpy : BuildArgsPy a) (hok : BuildNetOK e a) (hsch : SchemeChars a.scheme) (hb : build e a = .ok u)
     (hg : C03Guards u) :
     ∃ t u', str e u = .ok t ∧ encodeUrl e t = .ok u' ∧ str e u' = .ok t ∧ u'.scheme = u.scheme ∧
       u'.path = C07_strPath u ∧ u'.query = u.query ∧ u'.fragment = u.fragment ∧
       u'.netloc = u.netloc ∧ eqKey u' = eqKey u ∧ Url.beq u' u = true ∧
       port e u' = port e u ∧ rawHost e u' = rawHost e u ∧ rawUser e u' = rawUser e u ∧
-      rawPassword e u' = rawPassword e u ∧ CanonUrl e.b u' ∧ NetlocCanon e u' := by
-  have hsc : u.scheme = a.scheme := (build_shape e a u henc hok hb).1
+      rawPassword e u' = rawPassword e u ∧ CanonUrl e.b u' ∧ NetlocCanon e u' ∧ u.scheme = lower a.scheme := by
+  obtain ⟨sc, hl, hsc, _⟩ := build_shape e a u henc hok hb
+  obtain ⟨hl', hok'⟩ := lowerAny_schemeChars e hsch
+  have hsc' : u.scheme = lower a.scheme := by
+    rw [hl'] at hl; rw [hsc]; exact (Except.ok.inj hl).symm
   obtain ⟨t, u', k1, k2, k3, k4, k5, k6, k7, k8, k9, k10, k11, k12, k13, k14, k15, k16⟩ :=
     C03_fixed_point_eq e u (C03_build_canon e a u henc hpy hb) (C03_build_netlocCanon e a u henc hok hb)
-      (by rw [hsc]; exact hsch) hg
+      (by rw [hsc']; exact hok') hg
   have hnd := C03_build_noDefaultPort e a u henc hok hb
-  exact ⟨t, u', k1, k2, k3, k4, k5, k6, k7, k8.2 hnd, k9.2 hnd, k10.2 hnd, k11, k12, k13, k14, k15, k16⟩
+  exact ⟨t, u', k1, k2, k3, k4, k5, k6, k7, k8.2 hnd, k9.2 hnd, k10.2 hnd, k11, k12, k13, k14, k15, k16, hsc'⟩
 
 /-! ## reachable URLs -/
 
